@@ -93,23 +93,33 @@ Print Assumptions C20_replay_skipped.
     executed) every block of the canonical chain of the first i entries.
     Hypotheses: [safe] = repaired restart, or the code as it is on a log without entries from the
     future; [repaired_rest] = no local snapshot ahead of execution and a start-up that fetches what a
-    received snapshot still lacks (the code as it is after the [fix:] commits). *)
+    received snapshot still lacks (the code as it is after the [fix:] commits); [glue_ok] = the
+    executor announces a block (ExecutedEvent -> feedhub -> Order.ReportState) only after the ledger
+    has made it durable: "Report h only after Durable h".  The glue leg of the check runs the real
+    executor against the node and evaluates [reports_durable] on what it sees. *)
 Theorem C20_none_skipped : forall d c lg ops tr,
-  safe d c lg -> repaired_rest d ->
+  safe d c lg -> repaired_rest d -> glue_ok d ->
   rrun d c lg (init_sys d c) ops = Some tr -> none_skipped (c_init c) lg tr.
 Proof. exact none_skipped_all. Qed.
 Print Assumptions C20_none_skipped.
 
+(** the glue assumption as a trace predicate: in every run of the model with [glue_ok], every report is
+    for a durable height; this is the predicate the glue leg evaluates on the real executor + node *)
+Theorem C20_reports_after_durable : forall d c lg ops tr, d_report_early d = false ->
+  rrun d c lg (init_sys d c) ops = Some tr -> reports_durable (shadow_init (c_init c)) ops tr.
+Proof. exact reports_durable_all. Qed.
+Print Assumptions C20_reports_after_durable.
+
 (** every block handed over is the block of the log's canonical chain at its height ... *)
 Theorem C20_canonical : forall d c lg ops tr,
-  safe d c lg -> repaired_rest d ->
+  safe d c lg -> repaired_rest d -> glue_ok d ->
   rrun d c lg (init_sys d c) ops = Some tr -> canonical (c_init c) lg tr.
 Proof. exact canonical_all. Qed.
 Print Assumptions C20_canonical.
 
 (** ... the executed blocks are a prefix of that chain (nothing skipped, nothing twice, across crashes) ... *)
 Theorem C20_executed_prefix : forall d c lg ops tr,
-  safe d c lg -> repaired_rest d ->
+  safe d c lg -> repaired_rest d -> glue_ok d ->
   rrun d c lg (init_sys d c) ops = Some tr ->
   is_prefix (executed (shadow_init (c_init c)) ops tr) (canon_blocks (c_init c) lg).
 Proof. exact executed_prefix. Qed.
@@ -119,7 +129,7 @@ Print Assumptions C20_executed_prefix.
     same log from the same height hand over identical (height, txs).  The shared log is the
     hypothesis on etcd-raft (log matching): both runs are over the same [lg]. *)
 Theorem C20_same_content : forall d c1 c2 lg ops1 ops2 tr1 tr2,
-  c_init c1 = c_init c2 -> safe d c1 lg -> repaired_rest d ->
+  c_init c1 = c_init c2 -> safe d c1 lg -> repaired_rest d -> glue_ok d ->
   rrun d c1 lg (init_sys d c1) ops1 = Some tr1 -> rrun d c2 lg (init_sys d c2) ops2 = Some tr2 ->
   forall a b, In a (all_events tr1) -> In b (all_events tr2) -> fst a = fst b -> a = b.
 Proof. exact same_content. Qed.
@@ -155,6 +165,7 @@ Print Assumptions C20_new_leader_seq_trace.
     `>` instead of `>=` ([rstep_lt]) every run from the initial state is the same (the mutation is an
     equivalent mutant; the check cannot and need not report it) *)
 Theorem C20_index_check_equality_redundant : forall d c lg ops,
+  d_report_early d = false ->
   rrun_lt d c lg (init_sys d c) ops = rrun d c lg (init_sys d c) ops.
 Proof. exact index_check_equality_redundant. Qed.
 Print Assumptions C20_index_check_equality_redundant.
@@ -185,6 +196,8 @@ Theorem C20_reflect_above_executed : forall ops sh tr, above_executed_b sh ops t
 Proof. exact above_executed_b_spec. Qed.
 Theorem C20_reflect_leader_seq : forall id ops pl tr, leader_seq_b id pl ops tr = true <-> leader_seq id pl ops tr.
 Proof. exact leader_seq_b_spec. Qed.
+Theorem C20_reflect_reports_durable : forall ops sh tr, reports_durable_b sh ops tr = true <-> reports_durable sh ops tr.
+Proof. exact reports_durable_b_spec. Qed.
 Theorem C20_reflect_solo_contiguous : forall ops sh tr, solo_contiguous_b sh ops tr = true <-> solo_contiguous sh ops tr.
 Proof. exact solo_contiguous_b_spec. Qed.
 Theorem C20_reflect_solo_commits : forall ops tr, solo_commits_b ops tr = true <-> solo_commits ops tr.
@@ -243,7 +256,7 @@ Definition w_log_s : rlog := [EBatch 2 [100]; EBatch 3 [101]; EBatch 4 [102]; EB
 Definition w_ops_s : list rop :=
   [OAppend; OAppend; OAppend; OAppend; OReady 1 3 3 None; OExec; OCrash []; OReady 4 4 4 None].
 (** flags of the code before both [fix:] commits: snapshot without the guard, start-up without the fetch *)
-Definition snap_old : Defects := mkD false true false true.
+Definition snap_old : Defects := mkD false true false true false.
 Theorem C20_snap_unexecuted_refuted :
   exists tr, rrun snap_old w_cfg_s w_log_s (init_sys snap_old w_cfg_s) w_ops_s = Some tr
              /\ none_skipped_b (c_init w_cfg_s) w_log_s tr = false.
@@ -274,6 +287,39 @@ Example C20_example_snapin_fixed :
              /\ raft_prop_b (c_init w_cfg) (c_id w_cfg) w_log_i (w_ops_i [(3, (4, [102])); (4, (5, [103]))]) tr = 0
              /\ all_events tr = [(2, [100]); (3, [101]); (4, [102]); (5, [103]); (4, [102]); (5, [103]); (6, [104])].
 Proof. eexists. split; [vm_compute; reflexivity|]. split; vm_compute; reflexivity. Qed.
+
+(** the executor announces block 3 while the ledger is still writing it, the node records the applied
+    index of block 3, the process dies: on restart lastExec = 2, the recorded index covers the entry of
+    block 3, the replay skips it and ignores everything behind it (out-of-order reports included:
+    ReportState(3) arrives before ReportState(2)) *)
+Definition w_log_g : rlog := [EEmpty; EBatch 2 []; EBatch 3 []; EBatch 4 []; EBatch 5 []].
+Definition w_ops_g : list rop :=
+  [OAppend; OAppend; OAppend; OAppend; OAppend; OReady 1 5 5 (Some 2); OExec; OReport 3; OReport 2; OCrash []; OReady 1 5 5 None].
+(** the code as it is (restart from the persisted applied index) plus the early report; the log has no
+    entry from the future, so [safe] holds: [glue_ok] is what fails *)
+Definition current_early : Defects := mkD true false false false true.
+Theorem C20_report_early_refuted :
+  exists tr, rrun current_early w_cfg w_log_g (init_sys current_early w_cfg) w_ops_g = Some tr
+             /\ none_skipped_b (c_init w_cfg) w_log_g tr = false
+             /\ reports_durable_b (shadow_init (c_init w_cfg)) w_ops_g tr = false
+             /\ all_events tr = [(2, []); (3, []); (4, []); (5, [])]
+             /\ safe current_early w_cfg w_log_g.
+Proof.
+  eexists. split; [vm_compute; reflexivity|]. split; [vm_compute; reflexivity|]. split; [vm_compute; reflexivity|].
+  split; [vm_compute; reflexivity|]. right. apply nogap_from_b_spec. vm_compute. reflexivity.
+Qed.
+Print Assumptions C20_report_early_refuted.
+
+(** the same schedule with the report of block 3 after it is durable is fine; with the flag off the
+    early report is not a step of the system at all *)
+Example C20_example_glue_ok :
+  rrun cfg_fixed w_cfg w_log_g (init_sys cfg_fixed w_cfg) w_ops_g = None
+  /\ exists tr, rrun cfg_fixed w_cfg w_log_g (init_sys cfg_fixed w_cfg)
+                  [OAppend; OAppend; OAppend; OAppend; OAppend; OReady 1 5 5 (Some 2); OExec; OExec; OReport 3; OReport 2; OCrash []; OReady 1 5 5 None] = Some tr
+                /\ raft_prop_all_b (c_init w_cfg) (c_id w_cfg) w_log_g
+                     [OAppend; OAppend; OAppend; OAppend; OAppend; OReady 1 5 5 (Some 2); OExec; OExec; OReport 3; OReport 2; OCrash []; OReady 1 5 5 None] tr = 0
+                /\ all_events tr = [(2, []); (3, []); (4, []); (5, []); (4, []); (5, [])].
+Proof. split; [vm_compute; reflexivity|]. eexists. split; [vm_compute; reflexivity|]. split; vm_compute; reflexivity. Qed.
 
 (** two transactions in one log, no hypothesis on the log: tx_once needs [log_tx_disjoint] *)
 Theorem C20_tx_once_needs_disjoint_log :
